@@ -50,6 +50,15 @@ fn build(c: &Case) -> Option<HandRange> {
             v.extend(items.iter().map(|((a, b), w)| (pair(*b, *a), *w)));
             v.into_iter().collect::<HandRange>()
         }
+        v if v.starts_with("repeat") => {
+            // the same items fed k times over through FromIterator: the backing map has grown to another capacity
+            let k: usize = v[6..].parse().unwrap();
+            let mut all = vec![];
+            for _ in 0..k {
+                all.extend(items.iter().map(|((a, b), w)| (pair(*a, *b), *w)));
+            }
+            all.into_iter().collect::<HandRange>()
+        }
         "cards" => {
             // every combo written as a card-pair token, cards in either order (text from the harness' own tables), parsed
             let parts: Vec<String> = items
@@ -425,6 +434,33 @@ pub fn record(args: &Args, mut out: Out) -> usize {
                 let mut it = items.clone();
                 rng.shuffle(&mut it);
                 cases.push(Case { items: it, via: "cards", ops: "[]".into(), text_in: None, reparse: true });
+            }
+        }
+    }
+    if has("tiny") {
+        // ranges of two or three single combos that are close relatives (same two ranks, suits varied), each built in both
+        // insertion orders and through maps of five different capacities: equal contents, identical text
+        const REP: [&str; 5] = ["repeat1", "repeat2", "repeat8", "repeat32", "repeat128"];
+        for t in 0..args.num("tiny", 120) {
+            let q = rng.distinct(2, 13);
+            let (h, k) = (q[0].min(q[1]), q[0].max(q[1]));
+            let n = 2 + (t % 2) as usize;
+            let mut items: Items = vec![];
+            let hs = rng.usize(4);
+            while items.len() < n {
+                // same high card (and its suit) for most, kicker suits varied; now and then another high suit
+                let a = 4 * h + if rng.chance(3, 4) { hs } else { rng.usize(4) };
+                let b = 4 * k + rng.usize(4);
+                if !items.iter().any(|(c, _)| *c == (a, b)) {
+                    items.push(((a, b), if rng.chance(1, 2) { 1.0 } else { weight(&mut rng) }));
+                }
+            }
+            for (j, rep) in REP.iter().enumerate() {
+                let mut it = items.clone();
+                if j % 2 == 1 {
+                    it.reverse();
+                }
+                cases.push(Case { items: it, via: rep, ops: "[]".into(), text_in: None, reparse: true });
             }
         }
     }
